@@ -618,3 +618,52 @@ Example C01_nonvacuous_tiled :
   construct_tiled c 3 5 true (Label [m]) <> construct_tiled c 3 4 true (Label [m]).
 Proof. exact nonvacuous_tiled. Qed.
 Print Assumptions C01_nonvacuous_tiled.
+
+(* ---- the order of the source frames: finding D113 (open) ------------- *)
+(* FULL STATEMENT of the property for this entry point (refuted, see below):
+     forall c R C full i st forder, well_formed_tiled c R C i = true ->
+       Permutation forder (zrange (n_tiles R C (rows c) (cols c))) ->
+       construct_tiled c R C full i = Ok st -> forall lazy warm req am,
+       read_guard st req true am = Ok tt ->
+       read_g (frame_getter lazy warm st) st req true am
+       = Ok (expected_tiled_req_order c R C i forder req)
+   i.e. whatever order the (TILED_SPARSE) source lists its frames in, source
+   frame f reads back as the part of the matrix under THAT frame (tile
+   forder[f-1]).  The code refers stored tile k to source frame k+1 regardless,
+   so it holds only for sources in row-major tile order: *)
+Theorem C01_tiled_row_major_order_partial : forall c R C full i st,
+  well_formed_tiled c R C i = true -> construct_tiled c R C full i = Ok st ->
+  forall lazy warm req am,
+    read_guard st req true am = Ok tt ->
+    read_g (frame_getter lazy warm st) st req true am
+    = Ok (expected_tiled_req_order c R C i (zrange (n_tiles R C (rows c) (cols c))) req).
+Proof. exact tiled_row_major_order. Qed.
+Print Assumptions C01_tiled_row_major_order_partial.
+
+(* for a row-major source the demand IS the specification of the theorems above *)
+Theorem C01_order_row_major : forall c R C i req,
+  expected_tiled_req_order c R C i (zrange (n_tiles R C (rows c) (cols c))) req
+  = expected_tiled_req c R C i req.
+Proof. exact order_row_major. Qed.
+Print Assumptions C01_order_row_major.
+
+(* REFUTED for other orders (the witness of KNOWN_FINDINGS D113, replayed on the
+   real code by findings/repro/D113.py and by corpus/C01/d113_*.json): a valid
+   4 x 6 matrix in 2 x 3 tiles, only the top-left pixel set, the source listing
+   its frames bottom-right first - the pixel lies under source frame 4, the
+   by-frame read returns it for frame 1 *)
+Theorem C01_tiled_any_order_refuted :
+  exists c R C i forder,
+    well_formed_tiled c R C i = true /\ valid_tiled c R C i = true /\
+    Permutation forder (zrange (n_tiles R C (rows c) (cols c))) /\
+    match construct_tiled c R C false i with
+    | Ok st => read_by_frame false st [1; 2; 3; 4] false
+               <> Ok (expected_tiled_req_order c R C i forder [1; 2; 3; 4]) /\
+               read_by_frame false st [1; 2; 3; 4] false
+               = Ok [[[1];[0];[0];[0];[0];[0]]; [[0];[0];[0];[0];[0];[0]];
+                     [[0];[0];[0];[0];[0];[0]]; [[0];[0];[0];[0];[0];[0]]] /\
+               expected_tiled_req_order c R C i forder [4] = [[[1];[0];[0];[0];[0];[0]]]
+    | Err _ => False
+    end.
+Proof. exact tiled_any_order_refuted. Qed.
+Print Assumptions C01_tiled_any_order_refuted.
